@@ -108,6 +108,17 @@ def of_expr(node, env=None, wrappers=()):
         name = f.id if isinstance(f, ast.Name) else f.attr if isinstance(f, ast.Attribute) else None
         if name in wrappers:
             return of_expr(node.args[0], env, wrappers)
+    # min / max / abs of a pair: max(x, y) = min(x, y) + |x - y|, so the three spellings of an extent agree
+    if isinstance(node, ast.Call) and isinstance(node.func, ast.Name) and not node.keywords:
+        pair = None
+        if node.func.id in ("min", "max") and len(node.args) == 2:
+            pair = node.args
+        elif node.func.id == "abs" and len(node.args) == 1 and isinstance(node.args[0], ast.BinOp) and isinstance(node.args[0].op, ast.Sub):
+            pair = [node.args[0].left, node.args[0].right]
+        if pair is not None:
+            ks = sorted(_opaque(x, env, wrappers) for x in pair)
+            lo, span = Poly.sym("min{%s|%s}" % tuple(ks)), Poly.sym("span{%s|%s}" % tuple(ks))
+            return lo if node.func.id == "min" else span if node.func.id == "abs" else lo + span
     # opaque: substitute env inside by name for stability of the key
     return Poly.sym(_opaque(node, env, wrappers))
 
